@@ -74,6 +74,8 @@ def main():
             patch = os.path.join(sdir, d, "patch.diff")
             if os.path.exists(meta) and os.path.exists(patch):
                 m = json.load(open(meta))
+                if m.get("superseded"):
+                    continue  # a later repair of /repo made the same change: nothing left to apply
                 props = m.get("checks") or [m["property"]]
                 if m.get("negative_control"):
                     NEGATIVE.add("seeded/" + d)
